@@ -402,6 +402,7 @@ func CreateZip(zipPath string, filePaths []string) error {
 				return err
 			}
 		}
+		VerifPoint("zip:entry", filePath)
 	}
 	return zw.Close()
 }
